@@ -63,19 +63,10 @@ Definition txu_wf (u : txu) : Prop :=
   u_sp u < 256 /\ u_gray u < 4 /\ sh_reg (u_sh u) < 256 /\ sh_pos (u_sh u) < 256 /\ u_bs u <= 6.
 Definition txg_wf (s : txg) : Prop := txu_wf (x_u (fst s)) /\ c_ctr (x_io (fst s)) < 4.
 
-(* environment of the two-clock machine: usb_io ticks in every step; usb ticks exactly in the steps in which the strobe
-   counter is 0 (steps 0, 4, 8, ...); the UTMI inputs (usb-domain signals) change only right after a usb edge *)
-Definition txg_env (s : txg) (i : N) : bool :=
-  let ctr := c_ctr (x_io (fst s)) in
-  N.eqb (bits i 11 1) 1 && N.eqb (bits i 12 1) (bN (N.eqb ctr 0)) &&
-  (N.eqb ctr 1 || N.eqb (snd s) 2048 || N.eqb (bits i 0 11) (snd s)).
-(* explicit alphabet: tx_data in `datas`, tx_valid, op_mode in `modes`, tick_usb_io = 1, tick_usb free *)
-Definition tx_alpha (datas modes : list N) : list N :=
-  flat_map (fun d => flat_map (fun v => flat_map (fun m => map (fun t => d + 256 * v + 512 * m + 2048 + 4096 * t) [0; 1])
-    modes) [0; 1]) datas.
-
-(* the same environment as a state-dependent input alphabet (for tie_dep.rlock_dep): after a usb edge (strobe counter 1)
-   or in the very first step any word of the alphabet with the right ticks, otherwise the previous UTMI inputs again *)
+(* environment of the two-clock machine, as a state-dependent input alphabet (for tie_dep.rlock_dep): usb_io ticks in
+   every step; usb ticks exactly in the steps in which the strobe counter is 0 (steps 0, 4, 8, ...); the UTMI inputs
+   (usb-domain signals) change only right after a usb edge: after a usb edge (strobe counter 1) or in the very first step
+   any word of the alphabet with the right ticks, otherwise the previous UTMI inputs again *)
 Definition txg_alpha (datas modes : list N) (s : txg) : list N :=
   let ctr := c_ctr (x_io (fst s)) in
   let ticks := 2048 + 4096 * bN (N.eqb ctr 0) in
